@@ -11,10 +11,21 @@
 #include "xraylib.h"
 #include "xrf_cross_sections_aux.h"
 
+/* The library reports "xrl_error set over the top of a previous xrl_error" through fprintf(stderr, …) and carries on.  The
+   model calls that outcome `abort overwrite`; to observe it here the C stream `stderr` (not file descriptor 2, which the
+   sanitizers write to directly) is pointed at a temporary file, and a call during which that file grew is answered
+   `abort overwrite` instead of `ok …`. */
+static FILE *diag = NULL; static long diag_pos = 0; static int overwritten = 0;
+static void diag_check(void) {
+  if (!diag) return;
+  fflush(diag); long cur = ftell(diag);
+  overwritten = cur != diag_pos; diag_pos = cur;
+}
 static double pd(const char *s) { uint64_t b = strtoull(s + 1, NULL, 16); double d; memcpy(&d, &b, 8); return d; }
-static void pr_d(double d) { uint64_t b; memcpy(&b, &d, 8); printf("ok x%016llx", (unsigned long long)b); }
-static void pr_i(int v) { printf("ok %d", v); }
+static void pr_d(double d) { uint64_t b; memcpy(&b, &d, 8); diag_check(); if (overwritten) printf("abort overwrite"); else printf("ok x%016llx", (unsigned long long)b); }
+static void pr_i(int v) { diag_check(); if (overwritten) printf("abort overwrite"); else printf("ok %d", v); }
 static void pr_slot(char mode, xrl_error *e) {
+  if (overwritten) { printf("\n"); if (e) xrl_error_free(e); overwritten = 0; return; }
   if (mode == 'N') printf(" N\n");
   else if (e == NULL) printf(" E\n");
   else { printf(" F%d:%s\n", (int)e->code, e->message ? e->message : "(null)"); xrl_error_free(e); }
@@ -30,6 +41,7 @@ int main(void) {
   static char line[1 << 16];
   char *tok[64];
   setvbuf(stdout, NULL, _IOLBF, 0);
+  diag = tmpfile(); if (diag) stderr = diag;
   while (fgets(line, sizeof line, stdin)) {
     int nt = 0;
     for (char *p = strtok(line, " \n"); p && nt < 64; p = strtok(NULL, " \n")) tok[nt++] = p;
